@@ -1,5 +1,5 @@
 (* Model/Hybrid.v — HybridPropulsionSystem.do_power_balance_calculation: electric pass, shaft pass,
-   and a second electric pass when any full-PTI step exists, seen from the ONE PTI/PTO machine both
+   and, when any full-PTI step exists, a second electric pass followed by a second shaft pass, seen from the ONE PTI/PTO machine both
    sides share.  The two conversions of the machine are Section variables; the two balances are
    represented by what they guarantee (C01, C04): each pass balances its side against the PTI/PTO
    power that side reads AT THAT MOMENT.  One time step; definitions only. *)
@@ -24,14 +24,18 @@ Section Hybrid.
   (* shaft pass: full-PTI steps overwrite the shaft power by the load; electrical := to_elec shaft *)
   Definition s2 (i : hin) : Q := if h_full i then h_load i else s1 i.
   Definition e2 (i : hin) : Q := to_elec (s2 i).
-  (* second electric pass (only if some step is full-PTI): reads e2, writes shaft := to_shaft e2
-     -- a load-sharing machine gets its balancing power written again instead *)
-  Definition elec_final (i : hin) : Q := if h_any_full i && h_bal i then h_e0 i else e2 i.
-  Definition shaft_final (i : hin) : Q := if h_any_full i then to_shaft (elec_final i) else s2 i.
+  (* second electric pass (only if some step is full-PTI): a set-point machine is read with e2, a load-sharing
+     machine gets its balancing power written again; either way shaft := to_shaft of that electrical power *)
+  Definition elec_mid (i : hin) : Q := if h_bal i then h_e0 i else e2 i.
+  (* second shaft pass (after the second electric pass; fix D-22): full-PTI steps carry the load again, the other
+     steps keep the shaft power the electric pass wrote; electrical := to_elec shaft *)
+  Definition shaft_final (i : hin) : Q :=
+    if h_any_full i then (if h_full i then h_load i else to_shaft (elec_mid i)) else s2 i.
+  Definition elec_final (i : hin) : Q := if h_any_full i then to_elec (shaft_final i) else e2 i.
 
   (* what each side was balanced against by its LAST pass *)
-  Definition elec_balanced_with (i : hin) : Q := if h_any_full i then elec_final i else h_e0 i.
-  Definition shaft_balanced_with (i : hin) : Q := s2 i.
+  Definition elec_balanced_with (i : hin) : Q := if h_any_full i then elec_mid i else h_e0 i.
+  Definition shaft_balanced_with (i : hin) : Q := if h_any_full i then shaft_final i else s2 i.
 
   (* imbalance of each side when read with the machine's final powers *)
   Definition elec_imbalance (i : hin) : Q := elec_balanced_with i - elec_final i.
